@@ -613,12 +613,12 @@ def direct_checks(cid, cfg, share, rnd, first=None):
                 "chains": chain_set(a), "chains_permuted": chain_set(p)}
     if "error" not in a:
         r = observe(a["export"], {}, amplitude=False)
-        if struct_set(a) != struct_set(r) or any(a["pinfo"].get(k, [None] * 3)[:3] != v[:3] for k, v in r.get("pinfo", {}).items()):
+        if chain_set(a) != chain_set(r) or any(a["pinfo"].get(k, [None] * 3)[:3] != v[:3] for k, v in r.get("pinfo", {}).items()):
             has_ls_opt = any(isinstance(x, dict) and ("ls_list" in x or "l_list" in x)
                              for outs in cfg["decay"].values() for e in outs for x in (e if isinstance(e, list) else [e]))
             return {"what": "as_config export does not load back to the same chains / quantum numbers",
                     "known_site": "tf_pwa/particle.py BaseDecay.as_config" if has_ls_opt else None, "config": cfg, "share_dict": share,
-                    "export": a["export"], "chains": struct_set(a), "chains_reloaded": struct_set(r)}
+                    "export": a["export"], "chains": chain_set(a), "chains_reloaded": chain_set(r)}
         # every chain leads from the declared top to exactly the declared finals through declared decays
         fin = sorted(cfg["particle"]["$finals"])
         for ch in a["chains"]:
